@@ -87,6 +87,12 @@ D = {
     "C11d": ("Mesh1D.eval_basis cache key without the element number (same slip as seeded/C13b, found independently)", "xi on an interior element boundary, asked first with the explicit left element (VTK export, eval_strains) and then without"),
     "C13d": ("gauss(n, interval) is served from an lru_cache and returns the stored arrays", "a caller that post-processes a returned rule in place (w *= J): every later request for the same (n, a, b) - any Mesh1D built afterwards - gets the modified rule"),
     "C25d": ("Revolute.l_dot = l_dot_u @ u", "a joint partner that is a Frame with prescribed rotation about the joint axis: its angular velocity is not carried by u and is dropped"),
+    "C03d": ("Log_SO3_A takes the half-turn guard of Log_SO3 (`ca > -0.999`) and falls back to the constant identity-derivative in the band", "rotation angle in (3.0969, pi): Log_SO3_A (and Log_SE3_H) return the derivative valid at the identity, off by 1.4-2.0"),
+    "C07d": ("Force_line_distributed.h_el integrated with the dynamic (full) quadrature while E_pot keeps the static one (same idea as seeded/C07c, found independently)", "reduced integration and a load that varies along the rod or a non-constant reference stretch"),
+    "C09d": ("TwoPointInteraction.assembler_callback gathers q0 / u0 into arrays preallocated with the dtype of subsystem 1", "subsystem 1 with integer-typed q0 and subsystem 2 with fractional coordinates: the default reference length is computed from truncated coordinates"),
+    "C15d": ("CooMatrix.__setitem__, sparse branch: self.data.frombytes(coo.data.tobytes())", "a scipy sparse block whose stored dtype is not float64 (integer incidence blocks, eye_array(n, dtype=int))"),
+    "C22d": ("fixed_point_iteration keeps a reference to the map's result (`x = x_new`) instead of a copy", "a map that writes every result into one output array of its own and returns it: the previous iterate changes under the helper, the increment is 0 after two iterations"),
+    "C27d": ("prox.Sphere uses cardillo.math.algebra.norm (sqrt(a @ a)) instead of np.linalg.norm", "integer-typed vectors whose squared norm overflows the dtype (int64 above 3e9, int32 above 46341, int16 above 181)"),
     "C22b": ("fixed_point_iteration calls fun(x) without the defensive copy", "a fixed-point map that updates its argument in place (DualStormerVerlet's own map with accelerated=False does)"),
 }
 rows = []
